@@ -495,14 +495,14 @@ def run(ctx: fw.Ctx) -> int:
         ctx.correspondence_break('model build', logtxt[-1500:])
         return ctx.finish(RULE)
 
-    ev = event_cases(ctx, ctx.scale(1500, 16000))
+    ev = event_cases(ctx, ctx.scale(1000, 16000))
     ctx.differential('event', HEADER, ev, shard=150)
     ka = keepalive_cases(ctx)
     ctx.differential('keepalive', HEADER, ka, shard=150)
     ctx.cov['exhaustive'] = {'keepalive': 'lifetime 0..120 x jitter 5..10 = 726 runs of the real keepalive()'}
 
-    pn.run_networks(ctx, NET_HEADER, ctx.scale(120, 800))
-    pn.run_worlds(ctx, ctx.scale(40, 600))
+    pn.run_networks(ctx, NET_HEADER, ctx.scale(80, 800))
+    pn.run_worlds(ctx, ctx.scale(30, 600))
     return ctx.finish(RULE, level_note=[
         'whole-operator scenarios (kv.sim + kv.fakeapi: real kopf.operator() x 2-3 on one ClusterKopfPeering) are monitor-only',
         "int(str) and iso8601.parse_date are oracles (their values on the strings of each case are supplied to the model)",
